@@ -65,11 +65,11 @@ func runHistory(t *testing.T, r *vrep.Report, id int, cfg histCfg) {
 	// initial layout
 	for _, p := range splitPoints {
 		if rng.Intn(3) == 0 {
-			u.C05SplitAt([]byte(p))
+			u.SplitAt([]byte(p))
 		}
 	}
 	for i := 0; i < 3; i++ {
-		u.C05MoveLeader([]byte(keyUniverse[rng.Intn(len(keyUniverse))]), rng.Intn(3))
+		u.MoveLeader([]byte(keyUniverse[rng.Intn(len(keyUniverse))]), rng.Intn(3))
 	}
 	// build phase
 	for i := 0; i < cfg.nBuild; i++ {
@@ -100,11 +100,11 @@ func runHistory(t *testing.T, r *vrep.Report, id int, cfg histCfg) {
 			k := []byte(keyUniverse[rng.Intn(len(keyUniverse))])
 			switch rng.Intn(3) {
 			case 0:
-				u.C05SplitAt(pt)
+				u.SplitAt(pt)
 			case 1:
-				u.C05MergeAt(k)
+				u.MergeAt(k)
 			default:
-				u.C05MoveLeader(k, rng.Intn(3))
+				u.MoveLeader(k, rng.Intn(3))
 			}
 		}
 	}
@@ -291,24 +291,33 @@ func TestVerifC05(t *testing.T) {
 	run(uni.Mock, 0, nMock)
 	run(uni.Uni, 500000, nUni)
 	t.Logf("wall %v", time.Since(t0))
-	if only == "" {
-		r.Floor("histories:"+uni.Mock, 20)
-		r.Floor("histories:"+uni.Uni, 10)
-		r.Floor("reads_judged", 2000)
-		r.Floor("reads:get", 200)
-		r.Floor("reads:batchget", 200)
-		r.Floor("reads:iter", 200)
-		r.Floor("reads:iterrev", 100)
-		r.Floor("reads_judged_with_decided_locks", 100)
-		r.Floor("lock_in_read:committed<=ts", 20)
-		r.Floor("lock_in_read:committed>ts", 20)
-		r.Floor("lock_in_read:rolledback", 20)
-		r.Floor("lock_in_read:pessimistic", 10)
-		r.Floor("topology_changes_during_reads", 20)
-		r.Floor("set_ts_backward", 10)
-		r.Floor("set_ts_forward", 10)
-		r.Floor("multi_request:batchget", 20)
-		r.Floor("multi_request:iterrev", 20)
+	if only == "" && os.Getenv("VERIF_C05_N") == "" {
+		// a run that did not see these things must not count as "held"
+		r.Floor("histories:"+uni.Mock, 100)
+		r.Floor("histories:"+uni.Uni, 50)
+		r.Floor("reads_judged", 8000)
+		r.Floor("reads:get", 1500)
+		r.Floor("reads:batchget", 1500)
+		r.Floor("reads:iter", 1500)
+		r.Floor("reads:iterrev", 800)
+		r.Floor("reads_judged_with_decided_locks", 2000)
+		r.Floor("reads_warm_cache", 1000)
+		r.Floor("lock_in_judged_read:committed<=ts", 100)
+		r.Floor("lock_in_judged_read:committed>ts", 60)
+		r.Floor("lock_in_judged_read:rolledback", 150)
+		r.Floor("lock_in_judged_read:pessimistic", 500)
+		r.Floor("lock_in_judged_read:later:pending-alive", 100)
+		r.Floor("lock_in_judged_read:large-alive", 100)
+		r.Floor("lock_in_judged_read:pending-expired", 50)
+		r.Floor("lock_in_judged_read:async", 10)
+		r.Floor("topology_changes_during_reads", 400)
+		r.Floor("set_ts_backward", 300)
+		r.Floor("set_ts_forward", 300)
+		r.Floor("targeted_sessions", 50)
+		r.Floor("multi_request:batchget", 500)
+		r.Floor("multi_request:iter", 500)
+		r.Floor("multi_request:iterrev", 500)
+		r.Floor("txn_outcomes_checked", 1000)
 	}
 	// stable order of the counters that name lock classes (for the log)
 	var names []string
